@@ -4,6 +4,7 @@ package main
 //
 // Case line:  <Helper> <ty> <args…>     (space separated; see lean/FpgoVerif/Model/C03.lean for the grammar)
 //   ty i|s|t = int / string / struct{A int; B string};  element tokens: 3, -1 | ~ab (~ = "") | 2~b
+//   ty l|u = int64 / uint64 (decimal tokens up to the type extremes); ty f = float64, token k = the value k/2 (numeric helpers only)
 //   slice nil | [e,e] | [e,e|h,h]  (h = hidden elements between len and cap)    map nil | {k:v,…}   fn f<k> | fnil
 //   ALIASED operands: `[e,e,e,e]#a:b` = backing[a:b] of ONE backing array shared by all operands of the case with the
 //   same backing text (prefix views, overlapping views, the same slice twice); `{k:v}#s` = the same map object
@@ -638,32 +639,33 @@ func c03Call[T comparable](in *c03Inputs[T], cd c03Codec[T], helper string, a []
 }
 
 // numeric helpers: int only
-func c03RunNum(helper string, a []string) string {
-	in := &c03Inputs[int]{cd: c03Int}
-	atoi := func(s string) int { v, _ := strconv.Atoi(s); return v }
+// numeric helpers at int, int64, uint64 and float64 (float tokens are integers k meaning k/2: every value used is
+// exactly representable and the order / the arithmetic of Range are those of k, so the Int model is exact)
+func c03RunNum[T fpgo.Numeric](cd c03Codec[T], helper string, a []string) string {
+	in := &c03Inputs[T]{cd: cd}
 	out := "bad-case"
 	switch helper {
 	case "Max":
 		if len(a) == 1 {
-			out = strconv.Itoa(fpgo.Max(in.slice(a[0])...))
+			out = cd.show(fpgo.Max(in.slice(a[0])...))
 		}
 	case "Min":
 		if len(a) == 1 {
-			out = strconv.Itoa(fpgo.Min(in.slice(a[0])...))
+			out = cd.show(fpgo.Min(in.slice(a[0])...))
 		}
 	case "MinMax":
 		if len(a) == 1 {
 			lo, hi := fpgo.MinMax(in.slice(a[0])...)
-			out = "(" + strconv.Itoa(lo) + "," + strconv.Itoa(hi) + ")"
+			out = "(" + cd.show(lo) + "," + cd.show(hi) + ")"
 		}
 	case "Range":
 		if len(a) >= 2 {
-			hops := []int{}
+			hops := []T{}
 			for _, t := range a[2:] {
-				hops = append(hops, atoi(t))
+				hops = append(hops, cd.parse(t))
 			}
-			snap := append([]int(nil), hops...)
-			out = c03ShowList(c03Int, fpgo.Range(atoi(a[0]), atoi(a[1]), hops...))
+			snap := append([]T(nil), hops...)
+			out = c03ShowList(cd, fpgo.Range(cd.parse(a[0]), cd.parse(a[1]), hops...))
 			for i := range snap {
 				if hops[i] != snap[i] {
 					out += " mutated"
@@ -676,6 +678,24 @@ func c03RunNum(helper string, a []string) string {
 		out += " mutated"
 	}
 	return out
+}
+
+var c03I64 = c03Codec[int64]{
+	parse: func(s string) int64 { v, _ := strconv.ParseInt(s, 10, 64); return v },
+	show:  func(v int64) string { return strconv.FormatInt(v, 10) },
+	ord:   func(v int64) int { return int(v) },
+}
+var c03U64 = c03Codec[uint64]{
+	parse: func(s string) uint64 { v, _ := strconv.ParseUint(s, 10, 64); return v },
+	show:  func(v uint64) string { return strconv.FormatUint(v, 10) },
+	ord:   func(v uint64) int { return int(v) },
+}
+
+// float64 element token k (an integer) = the value k/2
+var c03F64 = c03Codec[float64]{
+	parse: func(s string) float64 { v, _ := strconv.ParseInt(s, 10, 64); return float64(v) / 2 },
+	show:  func(v float64) string { return strconv.FormatInt(int64(v*2), 10) },
+	ord:   func(v float64) int { return int(v * 2) },
 }
 
 func c03Run(line string) (out string) {
@@ -691,9 +711,23 @@ func c03Run(line string) (out string) {
 	helper, ty, a := f[0], f[1], f[2:]
 	switch helper {
 	case "Max", "Min", "MinMax", "Range":
-		return c03RunNum(helper, a)
+		switch ty {
+		case "i":
+			return c03RunNum(c03Int, helper, a)
+		case "l":
+			return c03RunNum(c03I64, helper, a)
+		case "u":
+			return c03RunNum(c03U64, helper, a)
+		case "f":
+			return c03RunNum(c03F64, helper, a)
+		}
+		return "bad-case"
 	}
 	switch ty {
+	case "l":
+		return c03RunT(c03I64, helper, a)
+	case "u":
+		return c03RunT(c03U64, helper, a)
 	case "i":
 		return c03RunT(c03Int, helper, a)
 	case "s":
@@ -946,6 +980,96 @@ func c03Gen(tier string, rng *rand.Rand, emit func(string)) map[string]interface
 			}
 		}
 	}
+	// values at the extremes of the numeric types (the model's Int is unbounded, so expectations are exact):
+	// around ±2^53 (where float64 stops being exact), 2^62, MaxInt64, MinInt64, MaxUint64; halves for float64
+	extreme := 0
+	outX := func(helper, ty string, args ...string) { extreme++; out(helper, ty, args...) }
+	numAlphas := []c03Alpha{
+		{"i", []string{"9007199254740992", "9007199254740993", "-9007199254740993", "4611686018427387904", "9223372036854775807", "-9223372036854775808", "0", "-1"}, []string{"8", "9"}, nil},
+		{"l", []string{"9007199254740992", "9007199254740993", "-9007199254740993", "4611686018427387904", "9223372036854775807", "-9223372036854775808", "0", "-1"}, []string{"8", "9"}, nil},
+		{"u", []string{"9007199254740992", "9007199254740993", "18446744073709551615", "18446744073709551614", "9223372036854775808", "0", "1"}, []string{"8", "9"}, nil},
+		{"f", []string{"-3", "-1", "0", "1", "5", "6000000000000001", "-6000000000000001"}, []string{"8", "9"}, nil},
+	}
+	xLen := 3
+	if tier == "thorough" {
+		xLen = 4
+	}
+	for _, al := range numAlphas {
+		for _, l := range c03AllLists(al.letters, xLen) {
+			tok := c03Tok(l, nil)
+			if len(l) == 2 {
+				tok = c03Tok(l, al.hidden)
+			}
+			outX("Max", al.ty, tok)
+			outX("Min", al.ty, tok)
+			outX("MinMax", al.ty, tok)
+		}
+	}
+	for _, ty := range []string{"i", "l", "u"} {
+		for _, base := range []string{"9007199254740990", "4611686018427387902", "9223372036854775800"} {
+			if ty == "u" && base == "9223372036854775800" {
+				base = "9223372036854775000" // keep the model's 64-bit signed wrap out of play
+			}
+			b0, _ := strconv.ParseInt(base, 10, 64)
+			for d := int64(0); d <= 4; d++ {
+				for lo := b0; lo <= b0+3; lo++ {
+					outX("Range", ty, strconv.FormatInt(lo, 10), strconv.FormatInt(lo+d, 10))
+					for hop := int64(1); hop <= 3; hop++ {
+						outX("Range", ty, strconv.FormatInt(lo, 10), strconv.FormatInt(lo+d, 10), strconv.FormatInt(hop, 10))
+					}
+				}
+			}
+		}
+	}
+	for lo := -3; lo <= 3; lo++ { // float64 Range in halves, explicit hop (the default hop 1.0 is 2 half-units)
+		for hi := -3; hi <= 5; hi++ {
+			for hop := -1; hop <= 4; hop++ {
+				outX("Range", "f", itoa(lo), itoa(hi), itoa(hop))
+			}
+		}
+	}
+	// the comparable helpers at int64 / uint64 with extreme elements (equality, set membership, copying, + in Reduce)
+	cmpAlphas := []c03Alpha{
+		{"l", []string{"9007199254740992", "9007199254740993", "9223372036854775807", "-9223372036854775808"}, []string{"8", "9"}, nil},
+		{"u", []string{"9007199254740992", "9007199254740993", "18446744073709551615", "18446744073709551614"}, []string{"8", "9"}, nil},
+	}
+	for _, al := range cmpAlphas {
+		lists := c03AllLists(al.letters, 3)
+		for _, l := range lists {
+			tok := c03Tok(l, nil)
+			for _, h := range []string{"Distinct", "Dedupe", "IsDistinct", "Reverse", "Head", "Tail", "DuplicateSlice"} {
+				outX(h, al.ty, tok)
+			}
+			outX("UniqBy", al.ty, "f1", tok)
+			outX("SliceToMap", al.ty, "7", tok)
+			outX("Filter", al.ty, "f1", tok)
+			outX("DropWhile", al.ty, "f1", tok)
+			for _, x := range al.letters {
+				outX("Exists", al.ty, x, tok)
+				outX("DropEq", al.ty, x, tok)
+				outX("Prepend", al.ty, x, tok)
+			}
+			for k := -1; k <= len(l)+1; k++ {
+				outX("Drop", al.ty, itoa(k), tok)
+				outX("TakeLast", al.ty, itoa(k), tok)
+			}
+		}
+		short := c03AllLists(al.letters, 2)
+		for _, x := range short {
+			for _, y := range short {
+				outX("IsEqual", al.ty, c03Tok(x, nil), c03Tok(y, nil))
+				outX("Zip", al.ty, c03Tok(x, nil), c03Tok(y, nil))
+				outX("Concat", al.ty, c03Tok(x, nil), c03Tok(y, nil))
+			}
+		}
+	}
+	// Reduce with + (f0) and max (f5) over int64 values beyond 2^53 (sums stay below 2^63)
+	for _, l := range c03AllLists([]string{"9007199254740992", "9007199254740993", "-9007199254740993", "2305843009213693952"}, 3) {
+		outX("Reduce", "l", "f0", "0", c03Tok(l, nil))
+		outX("Reduce", "l", "f0", "1", c03Tok(l, nil))
+		outX("Reduce", "l", "f5", "0", c03Tok(l, nil))
+		outX("Reduce", "l", "f2", "0", c03Tok(l, nil))
+	}
 	structured := 0
 	for _, c := range count {
 		structured += c
@@ -1094,7 +1218,7 @@ func c03Gen(tier string, rng *rand.Rand, emit func(string)) map[string]interface
 			"all maps over 3 keys x 2 values (+nil) and all pairs of them; Range lo,hi in [-3,4] x hop in {none,-3..7}; "+
 			"ALIASED operands: all pairs of views backing[a:b] of one shared array (lists up to length %d, int %d) for IsEqual/Zip/Concat/Flatten, "+
 			"same slice thrice, same map object twice for Merge/IsEqualMap", maxLen, c03FamilySize, pairLen, aliasLen, aliasLen+1),
-		"aliased_operand_cases": aliased,
+		"aliased_operand_cases": aliased, "numeric_extreme_cases": extreme,
 		"list_storage_variants": exhaustive, "structured_cases": structured, "random_cases": nRandom,
 		"random_list_lengths": lenHist, "per_helper": count,
 	}
